@@ -441,6 +441,35 @@ func (ex *Exec) globalVal(st *State, g *ssa.Global) Val {
 	}
 	t := g.Type().Underlying().(*types.Pointer).Elem()
 	name := fmt.Sprintf("G%d_%s_%s", st.epoch, g.Pkg.Pkg.Name(), g.Name())
+	// a package variable pinned by a globalinit clause (initialiser fixed, no
+	// writer anywhere in the module: proved by that clause) is a constant with
+	// the listed content
+	if ex.db != nil {
+		for _, fc := range ex.db.frames {
+			if fc.Kind == "globalinit" && fc.Target == g.Pkg.Pkg.Name()+"."+g.Name() && kindOf(t) == KSlice {
+				cname := "GC_" + g.Pkg.Pkg.Name() + "_" + g.Name()
+				first := !ex.vc.declared[cname+"_ref"]
+				v := mkVal(t, cname, nil, func(path string, s Sort) string {
+					ex.vc.DeclareOnce(path, s)
+					return path
+				})
+				if first {
+					sv := ex.viewSlice(v, t)
+					ex.vc.Assume(and(not(eq(sv.ref, z64())), eq(sv.off, z64()), eq(sv.ln, bvInt(int64(len(fc.Allowed)), 64)), app("bvsle", sv.ln, sv.cp)))
+					ex.vc.Trust("package variable " + fc.Target + " holds its initialiser (pinned by the globalinit clause of the same property)")
+				}
+				// its elements are the literals, in every state (nothing writes them)
+				sv := ex.viewSlice(v, t)
+				if kindOf(sv.elemT) == KStr {
+					m := sc(ex.heapTree(st, AElems, sv.elemT)).T
+					for k, lit := range fc.Allowed {
+						ex.assume(st, eq(sel(sel(m, sv.ref), bvInt(int64(k), 64)), ex.strLit(lit)))
+					}
+				}
+				return v
+			}
+		}
+	}
 	v := mkVal(t, name, nil, func(path string, s Sort) string {
 		ex.vc.DeclareOnce(path, s)
 		return path
